@@ -12,6 +12,18 @@ LEXERS = {
 }
 
 
+EXTRA_QUICK = {
+    "tm": [("{", "} a"), ("{'\\", "'} a"), ("{//\n", "} a"), ("foo-", " a")],
+    "json": [("[1.", "2]"), ("1e", " 2")],
+}
+for _d, _l in EXTRA_QUICK.items():
+    for _pre, _suf in _l:
+        if _pre not in LEXERS[_d][4]:
+            LEXERS[_d][4].append(_pre)
+        if _suf not in LEXERS[_d][5]:
+            LEXERS[_d][5].append(_suf)
+
+
 def files_for(ctx, d):
     pkg, hasline, hascol, gap, pres, sufs = LEXERS[d]
     src = open(os.path.join(VERIF, "harness", "c12_shipped.go.txt")).read()
@@ -48,10 +60,10 @@ def jobs(ctx):
                 combos.append((0, 0, 2, 0))
             for pi in range(1, min(len(pres), 3 if d == "js" else 4)):
                 combos.append((pi, min(pi, len(sufs) - 1), 1, 0))
-            if d == "tm":
-                # a token after a code block: its line and column depend on what skipAction counted inside the block
-                combos.append((pres.index("{"), sufs.index("} a"), 1, 0))
-                combos.append((pres.index("{'\\"), sufs.index("'} a"), 1, 0))
+            # contexts in which one symbolic byte decides what is counted: a token after a code block (skipAction), a newline
+            # right after a comment line inside a code block, a newline as the lookahead character of a backward rewind
+            for pre, suf in EXTRA_QUICK.get(d, []):
+                combos.append((pres.index(pre), sufs.index(suf), 1, 0))
         else:
             for pi in range(len(pres)):
                 for si in range(len(sufs)):
